@@ -155,8 +155,14 @@ func (c *control) readDir() {
 			}
 			params = append(params, p)
 		case '\'':
-			p := c.readParam()
-			params = append(params, slip.ReadCharacter(p))
+			// The character after the quote is the parameter even if it
+			// is a directive, modifier, or separator character.
+			start := c.pos
+			if c.pos < c.end {
+				c.pos++
+			}
+			c.readParam()
+			params = append(params, slip.ReadCharacter(c.str[start:c.pos]))
 		case '-', '0', '1', '2', '3', '4', '5', '6', '7', '8', '9':
 			c.pos--
 			p := c.readParam()
@@ -667,7 +673,11 @@ func (c *control) scanJustify(buf []byte, pos int) ([]*control, *control, int) {
 			case '-', '0', '1', '2', '3', '4', '5', '6', '7', '8', '9', ',':
 				// remain in tilde
 			case '\'':
-				// Read character and stay in tilde.
+				// Read character and stay in tilde. The character after the
+				// quote is always part of the parameter.
+				if pos < end {
+					pos++
+				}
 				for ; pos < end; pos++ {
 					if dirScanMap[buf[pos]] == 'x' {
 						break
